@@ -1,7 +1,8 @@
 """K3 schemas for tal:on-error (C13)."""
 from pyvc.k3 import schema_contracts
 
-H1 = '<?python __hole__(1) ?>'
+from pyvc.k3 import hole
+H1 = hole(1)
 
 SPECS = [
     dict(
